@@ -485,7 +485,6 @@ impl SubscribeBuilder {
                 return Err(SendPacketError::Disconnected);
             }
             let idx = self.id.unwrap_or_else(|| self.shared.next_id());
-            let rx = self.shared.wait_response(idx, AckType::Subscribe)?;
 
             // send subscribe to client
             log::trace!(
@@ -494,16 +493,14 @@ impl SubscribeBuilder {
                 self.topic_filters
             );
 
-            match self.shared.encode_packet(codec::Packet::Subscribe {
-                packet_id: idx,
-                topic_filters: self.topic_filters,
-            }) {
-                Ok(()) => {
-                    // wait ack from peer
-                    rx.await.map_err(|_| SendPacketError::Disconnected).map(Ack::subscribe)
-                }
-                Err(err) => Err(SendPacketError::Encode(err)),
-            }
+            let rx = self.shared.wait_response(
+                idx,
+                AckType::Subscribe,
+                codec::Packet::Subscribe { packet_id: idx, topic_filters: self.topic_filters },
+            )?;
+
+            // wait ack from peer
+            rx.await.map_err(|_| SendPacketError::Disconnected).map(Ack::subscribe)
         }
     }
 }
@@ -571,21 +568,18 @@ impl UnsubscribeBuilder {
             }
             // allocate packet id
             let idx = self.id.unwrap_or_else(|| shared.next_id());
-            let rx = shared.wait_response(idx, AckType::Unsubscribe)?;
 
             // send subscribe to client
             log::trace!("Sending unsubscribe packet id: {idx} filters:{filters:?}");
 
-            match shared.encode_packet(codec::Packet::Unsubscribe {
-                packet_id: idx,
-                topic_filters: filters,
-            }) {
-                Ok(()) => {
-                    // wait ack from peer
-                    rx.await.map_err(|_| SendPacketError::Disconnected).map(|_| ())
-                }
-                Err(err) => Err(SendPacketError::Encode(err)),
-            }
+            let rx = shared.wait_response(
+                idx,
+                AckType::Unsubscribe,
+                codec::Packet::Unsubscribe { packet_id: idx, topic_filters: filters },
+            )?;
+
+            // wait ack from peer
+            rx.await.map_err(|_| SendPacketError::Disconnected).map(|_| ())
         }
     }
 }
